@@ -62,6 +62,24 @@ fn family(i: u64, depth: usize, quick: bool) -> Case {
     Case { model: SrcModel { vars, cons, sense, obj: e }, signature: format!("{:?} core={cname} ctx=[{}] decl={dname} with={ename}", sense, names.join(",")) }
 }
 
+/// objectives over three variables with different ranges (x decided on the real line, w and y on grid lines)
+fn family_d_size(depth: usize) -> u64 {
+    let nctx: u64 = if depth == 0 { 1 } else { CTX_NAMES.len() as u64 };
+    crate::props::c01::cores_d().len() as u64 * nctx * 2 * 2 * 2
+}
+fn family_d(i: u64, depth: usize) -> Case {
+    let cs = crate::props::c01::cores_d();
+    let mut d = Digits(i);
+    let sense = if d.pick(2) == 0 { Sense::Min } else { Sense::Max };
+    let int_y = d.pick(2) == 1;
+    let with_row = d.pick(2) == 1;
+    let k = if depth == 0 { 0 } else { d.pick(CTX_NAMES.len()) };
+    let (cname, core) = d.of(&cs).clone();
+    let vars = vec![("x".to_string(), Dom::Real(-3.0, 3.0)), ("w".to_string(), Dom::Real(2.0, 4.0)), ("y".to_string(), if int_y { Dom::Int(-1, 2) } else { Dom::Real(-1.0, 2.5) })];
+    let cons = if with_row { vec![SrcCons { lhs: bin(BinOp::Add, var("x"), var("y")), rel: Rel::Le, rhs: num(2.0), bare: false, name: String::new() }] } else { vec![] };
+    Case { model: SrcModel { vars, cons, sense, obj: ctx(k, core) }, signature: format!("{:?} multi core={cname} ctx=[{}] y={} row={with_row}", sense, CTX_NAMES[k], if int_y { "int" } else { "real" }) }
+}
+
 /// does the union of the closed intervals cover [p, q]?
 fn covers(ivs: &[(Option<Q>, Option<Q>)], p: &Q, q_: &Q) -> bool {
     let mut frontier = p.clone();
@@ -271,10 +289,14 @@ pub fn run(mut run: Run) -> ! {
     let quick = run.quick();
     let depth = if quick { 1 } else { 2 };
     let ncores = cores().len();
-    run.rule = format!("objectives min/max e with e = one of {ncores} cores (abs/min/max nests, logic values in arithmetic) in every chain of <= {depth} contexts from 12, over 4 declaration sets (real, non-negative, integer, asymmetric) x 5 side-constraint sets (incl. a non-convex one and a logic assertion); for every assignment of the discrete variables and every cell of the region partition of the continuous one the source objective f is affine, and two exact statements are decided: (i) no auxiliary extension of a source-feasible value has a better linear objective than f (one exact MILP per cell), (ii) every source-feasible value has an extension attaining f (interval-union coverage from exact projections); distinct = model text; non-trivial = compiled with at least one auxiliary variable");
+    run.rule = format!("objectives min/max e with e = one of {ncores} cores (abs/min/max nests, logic values in arithmetic) in every chain of <= {depth} contexts from 12, over 4 declaration sets (real, non-negative, integer, asymmetric) x 5 side-constraint sets (incl. a non-convex one and a logic assertion); plus objectives min/max of 14 cores over three variables with different ranges (three-operand min/max, nested blocks) in every context (thorough), with and without a coupling row; for every assignment of the discrete variables and every cell of the region partition of the continuous one the source objective f is affine, and two exact statements are decided: (i) no auxiliary extension of a source-feasible value has a better linear objective than f (one exact MILP per cell), (ii) every source-feasible value has an extension attaining f (interval-union coverage from exact projections); distinct = model text; non-trivial = compiled with at least one auxiliary variable");
     run.assume("exact source semantics and exact MILP/LP on the linear model; the region partition (breakpoints of objective and constraints plus projection endpoints) makes f affine on each cell, which is self-checked at the cell midpoint");
     run.assume("models with non-dyadic constants, or whose continuous variable occurs under a logic operator, are skipped and counted");
     let n = family_size(depth, quick);
+    let ddepth = if quick { 0 } else { 1 };
+    run.family("OD-objectives-over-several-continuous-variables", family_d_size(ddepth), move |i, l| {
+        check_case(&family_d(i, ddepth), l);
+    });
     run.family("O-objective-core-in-context", n, move |i, l| {
         let c = family(i, depth, quick);
         check_case(&c, l);
